@@ -255,6 +255,10 @@ func runC09(r *Report, rng *rand.Rand, thorough bool) {
 			}
 			if u.Addl {
 				init["extra"] = "more"
+				init["extra2"] = []any{1, 2, 3}
+				init["extra3"] = []any{4, 5, 6}
+				init["extra4"] = map[string]any{"p": "1"}
+				init["extra5"] = map[string]any{"q": "2"}
 			}
 			add(fmt.Sprintf("%s/lossless/%s", u.Name, m), u, init, []map[string]any{{"method": "MarshalJSON"}}, meta{kind: "lossless", i: i, init: init})
 		}
